@@ -12,8 +12,9 @@ Clauses (see notes/c14.md for the exact reading of the statement behind each one
     no-new-control-char       no C0 control / DEL occurs more often in out than (raw) in in
     delimiters-stay-escaped   no delimiter of the component occurs more often raw in out than raw in in
                               (auth item '@' ':', path '?' '#', query item '&' '=' '#', fragment: none)
-    no-new-escape             multiset of byte values of the valid escapes of out is included in that of in,
-                              plus one %20 per raw space of in
+    no-new-escape             every valid escape of out is accounted for by a valid escape of in with the same byte
+                              value or by a raw character of in that is no longer raw in out (multisets of bytes):
+                              '%4%31' -> '%41' forges %41; ' ' -> '%20' or a stray '%' -> '%25' forge nothing
     no-double-decode          when in holds nested escapes (dec1(dec1(in)) != dec1(in)): out does not decode
                               to what in decodes to after two or more passes
     idempotent                f(f(in)) == f(in)
@@ -26,6 +27,7 @@ Clauses (see notes/c14.md for the exact reading of the statement behind each one
 import itertools
 import json
 import random
+import time
 import zlib
 from functools import lru_cache
 
@@ -99,10 +101,12 @@ def out_facts(s, out, d_in, levels, esc_in):
             bad.append(("no-new-control-char", out, "no control character that was not raw in the input; introduced: %s" % ", ".join("U+%04X" % ord(c) for c in new)))
     if "%" in out:
         extra = R.escape_bytes(out) - esc_in
-        if extra.get(0x20, 0) <= s.count(" "):
-            extra.pop(0x20, None)
         if extra:
-            bad.append(("no-new-escape", out, "only escapes that are escapes of the input (and %%20 for raw spaces); new: %s" % " ".join("%%%02X" % x for x in sorted(extra))))
+            # quoting a raw character of the input (space -> %20, a stray '%' -> %25, ...) forges nothing
+            extra = extra - (R.literal_bytes(s) - R.literal_bytes(out))
+        if extra:
+            bad.append(("no-new-escape", out, "every escape of the output is an escape of the input or the quoting of a raw character of the input; "
+                        "forged from text: %s" % " ".join("%%%02X" % x for x in sorted(extra))))
     c1 = bool(R.C1.search(out)) and any(out.count(c) > s.count(c) for c in set(R.C1.findall(out)))
     return bad, c1
 
@@ -297,7 +301,7 @@ class Tally(object):
         self.counts = {}
         self.vt = {}
         self.obs = {}
-        self.shrunk = {}
+        self.cpu0 = time.process_time()
 
     def primary(self, s):
         counts, viols, obs = evaluate(s)
@@ -320,6 +324,7 @@ class Tally(object):
         part = self.col.partial()
         part["vtally"] = self.vt
         part["obs"] = self.obs
+        part["cpu_s"] = time.process_time() - self.cpu0
         return part
 
 
@@ -426,6 +431,7 @@ def main():
         jobs.append(("r", (a.tier, a.seed, k, nrand // nshards)))
     parts = run_sharded(dispatch, jobs, a.jobs)
     vt, obs, allv = {}, {}, []
+    cpu = sum(part["cpu_s"] for part in parts)
     for part in parts:
         allv.extend(part["violations"])
         part["violations"] = []
@@ -456,6 +462,7 @@ def main():
                 "functions have something to do) + distinct such random inputs. 'violations' lists MINIMAL witnesses only (exhaustive part: no token "
                 "can be removed; random part: shrunk by deletion); the number of violating inputs per clause and function is in notes."
                 % (maxlen, len(TOK_TEXT), nrand))
+    col.notes.append("worker cpu time %.0f s over %d jobs (= %.0f s wall-clock on 16 idle cores)" % (cpu, len(jobs), cpu / 16.0))
     for k in sorted(vt):
         col.notes.append("violating inputs %s: %d" % (k, vt[k]))
     for k in sorted(obs):
